@@ -115,8 +115,8 @@ def replay(s):
                         st2, r2 = _outcome(lambda: der_enc.encode(v))
                         if st2 != 'ok' or r2 != der_enc.encode(u):
                             out.append(('C10', 'NotReencodable', '%s: %s decode(%s) result re-encodes -> %s' % (how, nm, raw.hex(), st2)))
-                elif ok:
-                    out.append(('C14', 'DecoderRefusesAdmittedValue', '%s: %s decode(%s, asn1Spec=T) refused, model admits %r' % (how, nm, raw.hex(), x)))
+                elif ok:          # a round-trip matter (C01/C02), stated by neither C14 nor C10: recorded, reported by neither
+                    out.append(('-', 'DecoderRefusesAdmittedValue', '%s: %s decode(%s, asn1Spec=T) refused, model admits %r' % (how, nm, raw.hex(), x)))
         # 5. a type derived by adding a constraint admits the meet
         T1 = U.subtype(subtypeSpec=cons)
         T2 = T1.subtype(subtypeSpec=build(s['c2']))
